@@ -1,13 +1,133 @@
-(* C01 -- 1-D WHERE with strided read-only sections a(lo:hi:st): a copy of the WHERE part of Model.v over
-   an expression type with one more operand, [WSec fx a lo hi st].  [fx] records which index expression
-   the reader built for that operand (the encoder reads it off the tree, as for the trip-count fix):
-     fx = false : start + widx - 1            (stride dropped: /repo before commit b189692)
-     fx = true  : start + (widx - 1) * stride (b189692; for stride 1 the old form is kept)
-   The source meaning of the operand does not depend on [fx]: element k is a(lo + k * st). *)
+(* C01 -- Model.v with the strided / explicit-section operand [WSec] of Model2.v (generated copy; used by the
+   correspondence check Corr3.v so that WHERE constructs with such operands are compared with [lower] too).
+   Reading and re-writing Fortran preserves behaviour.  Definitions only (no proofs):
+
+   * source-level constructs the PSyclone reader (psyir/frontend/fparser2.py) lowers into other
+     forms: SELECT CASE and 1-D WHERE / ELSEWHERE, as an extension of Fort.Syntax;
+   * their source-level meaning by the Fortran rules (selector evaluated once, unique matching block;
+     mask evaluated once, statement-by-statement masked assignment with the whole right-hand side
+     evaluated before any element is stored), built on Fort.Sem;
+   * the lowerings as functions, faithful to the code as it is today:
+       lower_select  = _case_construct_handler / _process_case_value_list / _process_case_value
+       lower_where   = _where_construct_handler / _array_syntax_to_indexed
+       lower         = the whole reader on the nested source language (DO default step included). *)
 From Coq Require Import List ZArith Bool Lia.
 Import ListNotations.
-From PV Require Import Fort.Syntax Fort.Sem Fort.Facts.
+From PV Require Import Fort.Syntax Fort.Sem Fort.Facts.   (* Facts: [zseq] only *)
 Open Scope Z_scope.
+
+(* ================================================================== SELECT CASE *)
+
+(* one item of a case-value list *)
+Inductive cval :=
+| CVal (e : expr)                 (* CASE (e)      *)
+| CFrom (lo : expr)               (* CASE (lo:)    *)
+| CUpto (hi : expr)               (* CASE (:hi)    *)
+| CBetween (lo hi : expr).        (* CASE (lo:hi)  *)
+
+(* does the selector value [v] match the item?  [None]: a case value does not evaluate *)
+Definition cval_match (s : store) (v : Z) (cv : cval) : option bool :=
+  match cv with
+  | CVal e => option_map (fun z => v =? z) (eval s e)
+  | CFrom lo => option_map (fun l => v >=? l) (eval s lo)
+  | CUpto hi => option_map (fun h => v <=? h) (eval s hi)
+  | CBetween lo hi =>
+      match eval s lo, eval s hi with
+      | Some l, Some h => Some ((v >=? l) && (v <=? h))
+      | _, _ => None
+      end
+  end.
+
+Fixpoint clause_match (s : store) (v : Z) (cvs : list cval) : option bool :=
+  match cvs with
+  | [] => Some false
+  | cv :: r =>
+      match cval_match s v cv, clause_match s v r with
+      | Some a, Some b => Some (a || b)
+      | _, _ => None
+      end
+  end.
+
+Section Select.
+  Variable B : Type.                         (* bodies: source statements or MiniFortran statements *)
+
+  (* all case values are evaluated (they are constant expressions); the block of the first clause
+     with a matching item is chosen -- by the Fortran constraint that case values do not overlap it
+     is the unique one (see [pick_unique] in SelectProofs.v) *)
+  Fixpoint pick (s : store) (v : Z) (cls : list (list cval * B)) : option (option B) :=
+    match cls with
+    | [] => Some None
+    | (cvs, body) :: rest =>
+        match clause_match s v cvs, pick s v rest with
+        | Some true, Some _ => Some (Some body)
+        | Some false, Some r => Some r
+        | _, _ => None
+        end
+    end.
+
+  (* clauses in source order; [None] marks CASE DEFAULT (it may stand anywhere) *)
+  Definition sclause := (option (list cval) * B)%type.
+
+  Fixpoint nondefault (cls : list sclause) : list (list cval * B) :=
+    match cls with
+    | [] => []
+    | (Some cvs, b) :: r => (cvs, b) :: nondefault r
+    | (None, _) :: r => nondefault r
+    end.
+
+  (* the code keeps the position of the last CASE DEFAULT it meets *)
+  Fixpoint default_of (cls : list sclause) : option B :=
+    match cls with
+    | [] => None
+    | (None, b) :: r => match default_of r with Some b' => Some b' | None => Some b end
+    | (Some _, _) :: r => default_of r
+    end.
+
+  (* source meaning: the selector is evaluated once; exactly one block (or none) is run *)
+  Definition select_sem (run : B -> store -> outcome) (nil_body : B) (sel : expr) (cls : list sclause)
+             (s : store) : outcome :=
+    match eval s sel with
+    | None => Fault
+    | Some v =>
+        match pick s v (nondefault cls) with
+        | None => Fault
+        | Some (Some body) => prepend (rds (ereads s sel)) (run body s)
+        | Some None =>
+            prepend (rds (ereads s sel))
+                    (run (match default_of cls with Some b => b | None => nil_body end) s)
+        end
+    end.
+End Select.
+Arguments pick {B}. Arguments nondefault {B}. Arguments default_of {B}. Arguments select_sem {B}.
+
+(* ---- the lowering: an IF chain; the condition of a clause is the right-nested .OR. of the tests of
+   its items, each test repeating the selector expression *)
+Definition case_cond (sel : expr) (cv : cval) : expr :=
+  match cv with
+  | CVal e => EBin Eq sel e                       (* == for numbers, .EQV. for logicals: both Eq here *)
+  | CFrom lo => EBin Ge sel lo
+  | CUpto hi => EBin Le sel hi
+  | CBetween lo hi => EBin And (EBin Ge sel lo) (EBin Le sel hi)
+  end.
+
+Fixpoint clause_cond (sel : expr) (cvs : list cval) : expr :=
+  match cvs with
+  | [] => ELit 0                                   (* CASE () is not Fortran *)
+  | [cv] => case_cond sel cv
+  | cv :: r => EBin Or (case_cond sel cv) (clause_cond sel r)
+  end.
+
+Fixpoint if_chain (sel : expr) (cls : list (list cval * list stmt)) (dflt : list stmt) : list stmt :=
+  match cls with
+  | [] => dflt
+  | (cvs, body) :: rest => [SIf (clause_cond sel cvs) body (if_chain sel rest dflt)]
+  end.
+
+(* CASE DEFAULT is moved last; with no other clause its body is emitted without any IF *)
+Definition lower_select (sel : expr) (cls : list (sclause (list stmt))) : list stmt :=
+  if_chain sel (nondefault cls) (match default_of cls with Some b => b | None => [] end).
+
+(* ================================================================== WHERE (1-D) *)
 
 Inductive red := RSum | RProduct | RMaxval | RMinval.
 
@@ -279,3 +399,47 @@ Definition lower_where (md : mode) (dc : decls) (w : wconstruct) : lres :=
       end
   end.
 
+(* ================================================================== the nested source language *)
+Inductive sstmt :=
+| TAssign (x : name) (ix : list expr) (e : expr)
+| TIf (c : expr) (th el : list sstmt)
+| TDo (x : name) (lo hi : expr) (st : option expr) (body : list sstmt)       (* step may be absent *)
+| TExit | TCycle | TReturn
+| TSelect (sel : expr) (cls : list (option (list cval) * list sstmt))
+| TWhere (w : wconstruct).
+
+Definition oapp {A} (a b : option (list A)) : option (list A) :=
+  match a, b with Some x, Some y => Some (x ++ y) | _, _ => None end.
+
+(* [None]: some WHERE is refused / not expressible *)
+Fixpoint lower_stmt (md : mode) (dc : decls) (st : sstmt) : option (list stmt) :=
+  let lw := fix lw (l : list sstmt) : option (list stmt) :=
+              match l with [] => Some [] | x :: r => oapp (lower_stmt md dc x) (lw r) end in
+  match st with
+  | TAssign x ix e => Some [SAssign x ix e]
+  | TIf c th el =>
+      match lw th, lw el with Some a, Some b => Some [SIf c a b] | _, _ => None end
+  | TDo x lo hi st0 body =>
+      match lw body with
+      | Some b => Some [SDo x lo hi (match st0 with Some e => e | None => ELit 1 end) b]
+      | None => None
+      end
+  | TExit => Some [SExit]
+  | TCycle => Some [SCycle]
+  | TReturn => Some [SReturn]
+  | TSelect sel cls =>
+      let lc := fix lc (l : list (option (list cval) * list sstmt))
+                  : option (list (option (list cval) * list stmt)) :=
+                  match l with
+                  | [] => Some []
+                  | (o, b) :: r =>
+                      match lw b, lc r with
+                      | Some b', Some r' => Some ((o, b') :: r') | _, _ => None end
+                  end in
+      match lc cls with Some cls' => Some (lower_select sel cls') | None => None end
+  | TWhere w =>
+      match lower_where md dc w with Lowered ss => Some ss | _ => None end
+  end.
+
+Fixpoint lower (md : mode) (dc : decls) (p : list sstmt) : option (list stmt) :=
+  match p with [] => Some [] | x :: r => oapp (lower_stmt md dc x) (lower md dc r) end.
